@@ -130,6 +130,14 @@ STRUCT = {
     'inline-child-in-head-wrapper': ["A\n", O('t', RT + ' unwrap-block'), "\nif ", O('m', RX), "c", C('m'), " {\n", H(2, 'ws'), "k\n}\n", C('t'), H(2, 'ws'), "B"],
     'unwrap-end-tag-line-has-inner-element': ["A\n", O('m', RX + ' unwrap-block'), "\nif {\n", H(1, 'ind'), "k;\n}\n", O('t', RT), H(1, 'sp'), "x", C('t'), H(1, 'sp'), C('m'), "\nB", H(1)],
     'unwrap-start-tag-line-has-inner-element': ["A\n", O('m', RX + ' unwrap-block'), H(1, 'sp'), O('t', RT), "x", C('t'), "\nif {\n", H(1, 'ind'), "k;\n}\n", C('m'), "\nB", H(1)],
+    # an unclosed registered tag inside a closed element whose (unregistered) name merely ends with the registered name
+    'unclosed-ready-in-suffix-named': [H(1), O('xm'), H(1, 'ws'), O('m', RX), "q", H(1, 'ws'), C('xm'), H(1), "\n", O('not-t'), O('t', RT), "r", C('not-t'), "\n"],
+    # malformed tags are text: a quote or '=' directly after a closing quote, a value-less '='
+    'malformed-second-value': ["A", H(1, 'ws'), ('x', "t to='2999-01-01 00:00:00'='2001-01-01 00:00:00'"), "q", C('t'), H(1, 'ws'), ('x', "m name='n'='x'"), "r", C('m'), "B"],
+    'malformed-stray-quote': ["A", H(1, 'ws'), ('x', "t to='2999-01-01 00:00:00'' c='2001-01-01 00:00:00'"), "q", C('t'), H(1, 'ws'), ('x', "m name=\"n\"\" name='x'"), "r", C('m'), "B"],
+    'inline-at-line-end-after-nonascii': ["first\n", H(2, 'ind'), H(3, 'nb'), H(1, 'sp'), O('m', RX), "old", C('m'), "\nlast\n"],
+    'multi-line-tag-skip': ["A\n", O('t', RT + "\nskip"), "\nq\n", C('t'), "\n", H(1, 'ws'), O('m', RX + "\nunwrap-block"), "\n{\n  k", H(1, 'txt'), "\n}\n", C('m'), "\nB\n"],
+    'head-wrapper-child-plus-inner-ready': ["A\n", O('m', RX + ' unwrap-block'), "\nif (f) { ", O('t', RT), "c", C('t'), "\n", H(1, 'ind'), "k;\n", O('t', RT), "\nq;\n", C('t'), "\n", H(1, 'ind'), O('m', PN), "\n", O('t', RT), "w", C('t'), "\n", C('m'), "\n}\n", C('m'), "\nB", H(1)],
     'ends-with-close-tag': [H(1), "A\n", O('m', RX), "\nq", H(1), "\n", C('m')],
     'unwrap-ragged': ["A\n", H(1, 'ind'), O('m', RX + ' unwrap-block'), "\n{\n    ", H(1, 'nb'), "a;\n  ", H(2, 'nb'), "b;\n", H(2, 'nb'), "c;\n", H(1, 'ind'), H(1, 'nb'), "d;\n}\n", C('m'), "\nB\n"],
     'unwrap-empty-line-between': [H(1), "A\n", O('m', RX + ' unwrap-block'), H(1, 'ind'), "\n", H(2, 'ind'), "\n", H(1, 'ind'), C('m'), "\nB", H(1)],
